@@ -74,6 +74,8 @@ func checkC15(p *Prog, c *Check) {
 		c15Order(p, c, sp)
 		c15Rollback(p, c, sp)
 		c15Hash(p, c, sp)
+		c15FreshFetch(p, c, sp)
+		c15ReorgParams(p, c, sp)
 	}
 	c.Floor("C15.syncers", nSync, 3)
 	c15Ranges(p, c)
